@@ -861,6 +861,16 @@ theorem gen_vec_matrix {n : Nat} (B : Basis K d n) (v : Vec K n) (rho : Mat K d 
     densityLoop B v = (List.finRange n).foldl (fun acc a => QGen.C02.povmMatrixLoopTerm acc (v.get a) (B.get a)) Mat.zero :=
   ⟨rfl, rfl, rfl, rfl, rfl, rfl, rfl⟩
 
+/-- `matrix_basis.calc_matrix_expansion_coefficient` computes `np.trace(np.conjugate(np.transpose(bi)) @ from_mat)` per basis element,
+`calc_mat_from_coefficient_basis` folds `mat += ci * bi`: the generated terms are the model's coefficient vector / dense loop
+(so these helpers are the vec ↔ matrix conversions of the theorems above, for ANY basis, Hermitian or not). -/
+theorem gen_expansion_helpers {n : Nat} (B : Basis K d n) (rho : Mat K d d) (v : Vec K n) (a : Fin n) :
+    (vecOfDensityRaw B rho).get a = QGen.C02.expansionCoeff (B.get a) rho ∧
+    densityLoop B v = (List.finRange n).foldl (fun acc a => QGen.C02.matFromCoeffTerm acc (v.get a) (B.get a)) Mat.zero := by
+  refine ⟨?_, rfl⟩
+  rw [(vecOfDensity_formula B rho a).1, (vecOfDensity_formula B rho a).2]
+  simp only [QGen.C02.expansionCoeff, conjM_transpose]
+
 /-- the parameter checks of `convert_hs` / `convert_vec` are the generated `if … : raise ValueError` chains, in source order. -/
 theorem gen_convert_checks :
     convertHsChecks = QGen.C02.convertHsChecksGen ∧ convertVecChecks = QGen.C02.convertVecChecksGen := ⟨rfl, rfl⟩
